@@ -74,8 +74,12 @@ func (r *run) syncEvent(as []*actor, e Ev) {
 	for _, c := range calls {
 		r.evOwners[r.step-1] = append(r.evOwners[r.step-1], callOwner(c))
 	}
+	var rc *readerCall
+	if e.Rd > 0 {
+		rc = r.readerJoin(f, e)
+	}
 	var g *kernel.Rng
-	if len(calls) > 1 || e.S != 0 {
+	if len(calls) > 1 || e.S != 0 || len(e.Late) > 0 || rc != nil {
 		g = kernel.NewRng(e.S + 17)
 	}
 	if e.Req == "lost" && len(calls) == 1 {
@@ -113,7 +117,11 @@ func (r *run) syncEvent(as []*actor, e Ev) {
 	if e.Post == "lag" {
 		r.lagAfter = mod(e.N, 5) // the snapshot update may have read the log already when it is left behind
 	}
+	r.cur = &curSync{f: f, late: e.Late}
 	r.pump(f, g, e.MF, e.Post == "lag", "hold")
+	calls = append(calls, r.cur.calls...)
+	started = append(started, r.cur.started...)
+	r.cur = nil
 	// responses
 	for _, c := range calls {
 		if c.state != "answered" {
@@ -147,12 +155,13 @@ func (r *run) syncEvent(as []*actor, e Ev) {
 			}
 		}
 	}
+	r.readerDone(rc)
 	for _, c := range calls {
 		if c.state == "finished" && c.pre != nil {
 			r.checkErrorPacks(c)
 		}
 	}
-	if r.on("entry") {
+	if r.on("entry") || r.on("msg") {
 		w.tick(0)
 		for _, c := range calls {
 			if c.state == "finished" {
@@ -170,6 +179,44 @@ func (r *run) syncEvent(as []*actor, e Ev) {
 			r.mon.onResponse(r, shadow, *shadow.resp, true) // nobody waits for the copy's answer
 		}
 	}
+}
+
+// curSync is the exchange event the pump is driving.
+type curSync struct {
+	f       *focus
+	late    []int
+	calls   []*call
+	started []*actor
+}
+
+// joinLate: further clients call Sync while a database command of the event is slow - right after the
+// lock leases of the requests that have been waiting since the start of the event ran out.
+func (r *run) joinLate() {
+	cs := r.cur
+	late := cs.late
+	cs.late = nil
+	var started []*actor
+	for _, ai := range late {
+		a := r.actor(ai)
+		if a != nil && r.startSync(a) {
+			started = append(started, a)
+			synctest.Wait()
+		}
+	}
+	synctest.Wait()
+	for _, c := range r.w.tr.byState("queued") {
+		for _, a := range started {
+			if c.client == a.name && !cs.f.calls[c] {
+				cs.f.calls[c] = true
+				cs.f.owners[callOwner(c)] = true
+				cs.calls = append(cs.calls, c)
+				r.evOwners[r.step-1] = append(r.evOwners[r.step-1], callOwner(c))
+				r.probe("late-joiner")
+				r.logf("  %s calls Sync while the database is slow (request %s)", a.name, callOwner(c))
+			}
+		}
+	}
+	cs.started = append(cs.started, started...)
 }
 
 func (r *run) actorByName(n string) *actor {
